@@ -31,6 +31,9 @@ def float_end_to_end(chk: Check, n):
         nc, nt = int(rng.integers(2, 60)), int(rng.integers(2, 60))
         if k % 4 == 0:
             nc, nt = int(rng.integers(2, 5)), int(rng.integers(40, 200))
+        if k % 7 == 6:
+            # LARGE samples / degrees of freedom (a t quantile at df ~ 3e4 still differs from the normal one by ~1e-5)
+            nc, nt = int(rng.integers(20000, 40000)), int(rng.choice([150, 25000]))
         loc = float(rng.choice([0.5, 3.0, -2.0, 100.0]))
         xc = rng.normal(loc, rng.uniform(0.2, 3), nc)
         xt = rng.normal(loc * rng.uniform(0.8, 1.3), rng.uniform(0.2, 3), nt)
@@ -49,7 +52,10 @@ def float_end_to_end(chk: Check, n):
             xc = np.array([-1.0, 1.0, 0.004] + [0.0] * (nc - 3 if nc > 3 else 0))[:max(nc, 3)]
             nc = len(xc)
             special = "control-mean-tiny"
-        data = pa.table({"variant": [0] * nc + [1] * nt, "x": np.concatenate([xc, xt])})
+        # which id is the control: the smaller one (the default), or - explicitly - the larger one, with the treatment
+        # carrying the id 0 / False / "" (a legitimate id that is falsy in Python)
+        cvar, tvar = [(0, 1), (1, 0), (True, False), ("b", "")][k % 4] if k % 3 == 1 else (0, 1)
+        data = pa.table({"variant": [cvar] * nc + [tvar] * nt, "x": np.concatenate([xc, xt])})
         try:
             if k % 2:
                 # explicit options must win over whatever the global configuration says at construction time
@@ -59,7 +65,12 @@ def float_end_to_end(chk: Check, n):
                     metric = tt.Mean("x", alternative=alt, equal_var=ev, use_t=ut, confidence_level=cl)
             else:
                 metric = tt.Mean("x", alternative=alt, equal_var=ev, use_t=ut, confidence_level=cl)
-            res = tt.Experiment(m=metric).analyze(data)["m"]
+            if (cvar, tvar) == (0, 1):
+                res = tt.Experiment(m=metric).analyze(data)["m"]
+            elif k % 2:
+                res = tt.Experiment(m=metric).analyze(data, control=cvar)["m"]
+            else:
+                res = metric.analyze(data, cvar, tvar, "variant")
         except Exception as ex:  # noqa: BLE001
             chk.fail("Experiment.analyze raised on plain float data", dict(cell=[alt, ev, ut], error=repr(ex)))
             continue
@@ -106,7 +117,8 @@ def float_end_to_end(chk: Check, n):
             if not ok:
                 chk.fail(f"float end-to-end: field {f} differs from scipy/closed form",
                          dict(cell=[alt, ev, ut], confidence_level=cl, n=[nc, nt], field=f, observed=g, expected=e,
-                              control=xc.tolist(), treatment=xt.tolist()))
+                              control_id=repr(cvar), treatment_id=repr(tvar),
+                              control=xc.tolist()[:200], treatment=xt.tolist()[:200]))
                 break
     chk.cov["float_e2e_worst_rel_err"] = worst
 
